@@ -1,6 +1,7 @@
 package main
 
 import (
+	"runtime"
 	"context"
 	"encoding/json"
 	"fmt"
@@ -13,7 +14,9 @@ import (
 	"sync"
 	"time"
 
+	"github.com/bmeg/grip/gdbi"
 	"github.com/bmeg/grip/gripql"
+	"github.com/bmeg/grip/util"
 	"google.golang.org/protobuf/types/known/structpb"
 
 	"gripverif/internal/coq"
@@ -36,6 +39,12 @@ type c17Op struct {
 type c17Input struct {
 	Sessions [][]c17Op `json:"sessions"`
 	Driver   string    `json:"driver"`
+	// graph-creation race: for this many fresh graph names one session creates the graph while another writes to it as soon
+	// as it is visible; every acknowledged element must afterwards be found through the label index as well
+	CreateRace int `json:"create_race,omitempty"`
+	// the batching writer behind driver bulk loads (util.StreamBatch): this many vertices and edges streamed through it with
+	// writers slower than the producer; every element must be handed to a writer exactly once
+	StreamRace int `json:"stream_race,omitempty"`
 }
 type c17Elem struct {
 	ID    string `json:"id"`
@@ -50,6 +59,7 @@ type c17Obs struct {
 	Edges    []c17Elem `json:"edges"`
 	Graphs   []string  `json:"graphs"`
 	Races    []string  `json:"races"` // deduplicated "write-fn <-> other-fn" pairs
+	IndexMissing int   `json:"acknowledged_but_not_in_label_index"`
 	Crashed  bool      `json:"crashed"`
 	Err      string    `json:"err,omitempty"`
 	Stderr   string    `json:"stderr,omitempty"`
@@ -188,6 +198,81 @@ func concWorker(req json.RawMessage) interface{} {
 			}
 		}(i, sess)
 	}
+	for k := 0; k < in.CreateRace; k++ {
+		name := fmt.Sprintf("r%03d", k)
+		var okE, okV bool
+		var w2 sync.WaitGroup
+		w2.Add(2)
+		go func() { defer w2.Done(); srv.AddGraph(ctx, &gripql.GraphID{Graph: name}) }()
+		go func() {
+			defer w2.Done()
+			for t := 0; t < 200000; t++ {
+				if _, err := env.db.Graph(name); err == nil {
+					break
+				}
+				runtime.Gosched()
+			}
+			_, e1 := srv.AddEdge(ctx, &gripql.GraphElement{Graph: name, Edge: &gripql.Edge{Gid: "e", Label: "knows", From: "a", To: "b"}})
+			_, e2 := srv.AddVertex(ctx, &gripql.GraphElement{Graph: name, Vertex: &gripql.Vertex{Gid: "a", Label: "Person"}})
+			okE, okV = e1 == nil, e2 == nil
+		}()
+		w2.Wait()
+		if l, err := srv.ListLabels(ctx, &gripql.GraphID{Graph: name}); err == nil {
+			has := func(xs []string, x string) bool {
+				for _, y := range xs {
+					if y == x {
+						return true
+					}
+				}
+				return false
+			}
+			if okE && !has(l.EdgeLabels, "knows") {
+				ob.IndexMissing++
+			}
+			if okV && !has(l.VertexLabels, "Person") {
+				ob.IndexMissing++
+			}
+		}
+	}
+	if in.StreamRace > 0 {
+		stream := make(chan *gdbi.GraphElement, 10)
+		go func() {
+			for i := 0; i < in.StreamRace; i++ {
+				stream <- &gdbi.GraphElement{Graph: "g1", Vertex: &gdbi.Vertex{ID: fmt.Sprintf("sv%d", i), Label: "S"}}
+				stream <- &gdbi.GraphElement{Graph: "g1", Edge: &gdbi.Edge{ID: fmt.Sprintf("se%d", i), Label: "S", From: "a", To: "b"}}
+			}
+			close(stream)
+		}()
+		var mu sync.Mutex
+		seen := map[string]int{}
+		util.StreamBatch(stream, 50, "g1",
+			func(vs []*gdbi.Vertex) error {
+				time.Sleep(200 * time.Microsecond)
+				mu.Lock()
+				for _, v := range vs {
+					seen[v.ID]++
+				}
+				mu.Unlock()
+				return nil
+			},
+			func(es []*gdbi.Edge) error {
+				time.Sleep(200 * time.Microsecond)
+				mu.Lock()
+				for _, e := range es {
+					seen[e.ID]++
+				}
+				mu.Unlock()
+				return nil
+			})
+		for i := 0; i < in.StreamRace; i++ {
+			if seen[fmt.Sprintf("sv%d", i)] != 1 {
+				ob.IndexMissing++
+			}
+			if seen[fmt.Sprintf("se%d", i)] != 1 {
+				ob.IndexMissing++
+			}
+		}
+	}
 	close(start)
 	done := make(chan struct{})
 	go func() { wg.Wait(); close(done) }()
@@ -290,7 +375,7 @@ func runC17(ctx *Ctx) error {
 	ctx.CaseTy = "c17_case"
 	ctx.Shard = 40
 	ctx.Scope = "Z_scope"
-	ctx.Rule = "concurrent sessions against one in-process server (verif hook, handlers called directly, badger and pebble): 2..8 client goroutines released together, each running 6..25 random operations: vertex writes on private ids and on three ids shared by all clients, private edges and edge deletes, reads, traversals, ListGraphs/ListLabels, creation+use+deletion of a private graph (which rebuilds the shared graph map), AddSchema/GetSchema on the shared graphs, job submit/list/get/view; the worker binary is built with the Go race detector; observed: which calls were acknowledged, the final vertices/edges of both graphs read through the store, the graph list, deduplicated race reports, process death; non-trivial = at least two sessions write a shared id or rebuild the graph map; distinct by input"
+	ctx.Rule = "concurrent sessions against one in-process server (verif hook, handlers called directly, badger and pebble): 2..8 client goroutines released together, each running 6..25 random operations: vertex writes on private ids and on three ids shared by all clients, private edges and edge deletes, reads, traversals, ListGraphs/ListLabels, creation+use+deletion of a private graph (which rebuilds the shared graph map), AddSchema/GetSchema on the shared graphs, job submit/list/get/view; plus, on its own, the creation of 150 (thorough 600) graphs by one goroutine each while another writes an edge and a vertex to the graph the moment it is visible (every acknowledged element must be listed by the label index), and 1000 vertices + 1000 edges through util.StreamBatch with writers slower than the producer (each handed over exactly once); the worker binary is built with the Go race detector; observed: which calls were acknowledged, the final vertices/edges of both graphs read through the store, the graph list, deduplicated race reports, process death; non-trivial = at least two sessions write a shared id or rebuild the graph map; distinct by input"
 	var inputs []c17Input
 	if ctx.Replay != nil {
 		var in c17Input
@@ -309,6 +394,11 @@ func runC17(ctx *Ctx) error {
 			}
 			inputs = append(inputs, c17Input{Sessions: c17Sessions(ctx.Rng, nc, no), Driver: drv})
 		}
+		// the graph-creation race on its own (no other sessions), on both stores
+		for _, drv := range []string{"badger", "pebble"} {
+			inputs = append(inputs, c17Input{Sessions: [][]c17Op{}, Driver: drv, CreateRace: ctx.Pick(150, 600)})
+		}
+		inputs = append(inputs, c17Input{Sessions: [][]c17Op{}, Driver: "badger", StreamRace: 1000})
 	}
 	reqs := make([]json.RawMessage, len(inputs))
 	for i, in := range inputs {
@@ -381,7 +471,7 @@ func runC17(ctx *Ctx) error {
 			es[k] = fmt.Sprintf("(%s, (%s, %d))", coq.Str(v.ID), coq.Str(v.Label), v.Val)
 		}
 		cc := coq.Record("c_sessions", coq.List(sess), "o_vertices", coq.List(vs), "o_edges", coq.List(es),
-			"o_races", fmt.Sprintf("%d%%nat", len(ob.Races)), "o_crashed", coq.Bool(ob.Crashed))
+			"o_races", fmt.Sprintf("%d%%nat", len(ob.Races)), "o_crashed", coq.Bool(ob.Crashed), "o_index_missing", fmt.Sprintf("%d%%nat", ob.IndexMissing))
 		key, _ := json.Marshal(in)
 		tags := []string{"driver=" + in.Driver, fmt.Sprintf("clients=%d", len(in.Sessions)), fmt.Sprintf("races=%d", len(ob.Races)), fmt.Sprintf("crashed=%v", ob.Crashed)}
 		ctx.Add(Case{Input: in, Observed: ob, Coq: cc, Nontrivial: shared >= 2, Key: string(key), Tags: tags})
